@@ -61,7 +61,7 @@ fn schedule_history() -> BoxedStrategy<History> {
         prop_oneof![3 => 0u8..=3, 3 => 0u8..=8, 1 => Just(8u8), 1 => Just(0u8)],
         prop_oneof![3 => 0u32..=5000, 2 => 0u32..=60_000, 1 => Just(0u32), 1 => Just(60_000u32)],
     );
-    let start = (0u8..3, 0u8..4, any::<u8>(), prop_oneof![1 => Just(None), 4 => cfg.prop_map(Some)], prop_oneof![Just(0u32), 1u32..2000]);
+    let start = (0u8..3, 0u8..4, crate::agentsim::payload_strategy(), prop_oneof![1 => Just(None), 3 => cfg.prop_map(Some), 1 => crate::agentsim::cfg_strategy().prop_map(Some)], prop_oneof![Just(0u32), 1u32..2000]);
     let round = (
         prop_oneof![
             2 => Just(Adv::ToWakeMinus(0)),
